@@ -10,9 +10,9 @@ TRUSTED_BASE = [
 
 HOOKS = {
     "guard": "cargo feature `verif-hooks` of rml_rtmp (off by default)",
-    "enable": "the harness crate /verif/harness depends on /repo/rtmp by path; hooks (none needed so far) would be enabled through the feature in harness/Cargo.toml",
+    "enable": "the harness crate /verif/harness depends on /repo/rtmp by path with features = [\"verif-hooks\"] (harness/Cargo.toml); H1 = rml_rtmp::handshake::verif_hooks (deterministic handshake fill), H2 = session clock shift",
     "baseline_off_cmd": "cd /repo && cargo test --workspace --no-fail-fast --offline",
-    "source_commits": [],
+    "source_commits": ["19ee666", "18d9cf5"],
     "add_only": True,
 }
 
@@ -22,6 +22,8 @@ NOTES = ("Technique family: machine-checked proof in Lean 4. Every claimed prope
          "hand-written model in lean/Rml/Model, tied to /repo by the correspondence run of tools/check.py. See DESIGN.md.")
 
 PROPS = {
+    "C09": dict(lean=["Rml.Props.C20"], families=["server"], level_text="wip", level_note="wip"),
+    "C10": dict(lean=["Rml.Props.C20"], families=["client"], level_text="wip", level_note="wip"),
     "C05": dict(
         lean=["Rml.Props.C05"], families=["hs"],
         level_text="PARTIAL proof, with hmac and both random fills arbitrary. Proved: the five-stage loop of process_bytes equals a straight-line closed form for EVERY state and input (processBytes_eq_procSpec); against ANY peer stream 3‖p1‖p2‖tail (digest-bearing or original) a party, in either start mode, emits 3‖own p1‖answer (3073 bytes), completes and returns exactly `tail` (C05_one_call_fresh/_started, C05_emits_3073); no input shorter than 3073 bytes completes it (C05_no_early_completion); bad version byte and post-completion input are refused. NOT yet a theorem: the same for every partition into calls and every two-party schedule; covered by hs.xfer schedules interpreted by model and real code (byte-exact under hook H1) and the !hs.pair oracle on real handshakes incl. an original-handshake peer under many fragmentations and trailing data.",
